@@ -40,6 +40,64 @@ def one(args):
     return json.loads(lines[-1])
 
 
+CLI_PROG = '''
+import os, pickle, random, sys
+class Rec:
+    def __init__(self, n):
+        self.n = n
+def work(a, b=None):
+    return (a, b)
+def main():
+    print("argv0", os.path.basename(sys.argv[0]), "args", sys.argv[1:])
+    print("main module", sys.modules["__main__"].__name__, getattr(sys.modules["__main__"], "__file__", None) is not None,
+          hasattr(sys.modules["__main__"], "Rec"))
+    random.seed(7)
+    work(1, "x")
+    print("draws", random.random(), random.randrange(100))
+    try:
+        print("pickle", len(pickle.loads(pickle.dumps(Rec(3))).__dict__))
+    except Exception as e:
+        print("pickle failed", type(e).__name__)
+    work(Rec(1))
+    if "fail" in sys.argv:
+        raise SystemExit(3)
+if __name__ == "__main__":
+    main()
+'''
+CLI_CFG = '''
+from monkeytype.config import DefaultConfig
+from monkeytype.db.sqlite import SQLiteStore
+class C(DefaultConfig):
+    def trace_store(self):
+        return SQLiteStore.make_store({db!r})
+CONFIG = C()
+'''
+
+
+def cli_run_cases(ctx):
+    """`monkeytype run` against plain `python`: same output, same exit status - for a script path and for -m module"""
+    import os
+    d = os.path.join(ctx.work, "clirun")
+    os.makedirs(d, exist_ok=True)
+    with open(os.path.join(d, "c03prog.py"), "w") as f:
+        f.write(CLI_PROG)
+    with open(os.path.join(d, "c03cfg.py"), "w") as f:
+        f.write(CLI_CFG.format(db=os.path.join(d, "t.sqlite3")))
+    env = common.sub_env()
+    env["PYTHONPATH"] = d + os.pathsep + env.get("PYTHONPATH", "")
+    out = []
+    for form, plain, traced in (
+            ("script", ["c03prog.py"], ["run", "c03prog.py"]),
+            ("module", ["-m", "c03prog"], ["run", "-m", "c03prog"])):
+        for extra in (["a", "b"], ["fail"]):
+            p1 = subprocess.run([common.PY] + plain + extra, capture_output=True, text=True, env=env, cwd=d, timeout=120)
+            p2 = subprocess.run([common.PY, "-m", "monkeytype", "-c", "c03cfg:CONFIG"] + traced + extra, capture_output=True,
+                                text=True, env=env, cwd=d, timeout=120)
+            out.append({"form": form, "args": extra, "plain": {"rc": p1.returncode, "stdout": p1.stdout, "stderr": p1.stderr[-300:]},
+                        "traced": {"rc": p2.returncode, "stdout": p2.stdout, "stderr": p2.stderr[-300:]}})
+    return out
+
+
 def run(ctx):
     nseeds = 6 if ctx.tier == "quick" else 60
     jobs = []
@@ -75,6 +133,18 @@ def run(ctx):
         cases.append({"seed": seed, "fault": fault, "extra": sorted(set(extra)), "missing": sorted(set(missing)),
                       "traced": {k: t.get(k) for k in ("exception", "flush_exception", "profiler_restored", "flushes", "logged", "residue", "stderr")},
                       "untraced_exception": u["exception"], "term": term})
+    for c in cli_run_cases(ctx):
+        same_out = c["plain"]["stdout"] == c["traced"]["stdout"] and c["plain"]["stdout"] != ""
+        same_rc = c["plain"]["rc"] == c["traced"]["rc"]
+        fault = f"cli_run_{c['form']}"
+        dist[f"fault={fault}"] += 1
+        term = "ECase %s [] [] %s %s %s true 1 false 0" % (common.coq_str(fault), common.coq_bool(same_out), common.coq_bool(same_out),
+                                                            common.coq_bool(same_rc))
+        terms.append(term)
+        cases.append({"seed": 0, "fault": fault + " " + " ".join(c["args"]), "extra": [], "missing": [],
+                      "traced": {"rc": c["traced"]["rc"], "stdout": c["traced"]["stdout"][:600], "stderr": c["traced"]["stderr"],
+                                 "plain_rc": c["plain"]["rc"], "plain_stdout": c["plain"]["stdout"][:600]},
+                      "untraced_exception": None, "term": term})
     outs = common.run_coq_shards(ctx.work, "c03", "From MT Require Import EffectsCases.\n", terms, "ecase",
                                  "bad verdict_effects 0 cases")
     failures, mismatches = [], []
@@ -97,7 +167,9 @@ def run(ctx):
                 "attribute read raises; passed as arguments, returns, yields, nested in containers; a hooked global named like "
                 "a traced method, hooked non-class globals before and after the classes, a hooked callable local of an outer frame; "
                 "the logging module configured with a handler that formats every record) run untraced and under the real trace_calls in "
-                "fresh interpreters, x faults {log, flush, both, body exception, block switching the profiler off or replacing it, ...} x pre-installed profiler or none; every "
+                "fresh interpreters, x faults {log, flush, both, body exception, block switching the profiler off or replacing it, ...} x pre-installed profiler or none; plus `monkeytype run script` / `run -m module` against "
+                "plain python on a program that looks at sys.argv, __main__, pickles its own class and draws from a seeded "
+                "random generator (same stdout and exit status); every "
                 "pair is non-trivial; distinct by hash of the reified comparison",
         "samples": [{k: c[k] for k in ("seed", "fault", "extra", "missing", "traced")} for c in cases[:3]],
         "distribution": dict(dist), "failures": failures, "mismatches": mismatches,
